@@ -103,7 +103,9 @@ class Summary:
 _JOB: dict = {}
 
 
-def _dfs(root: tuple, D: int, audit_every: int, seed: int) -> Summary:
+def _dfs(root: tuple, D: int, audit_every: int, seed: int, shard: tuple[int, int] | None = None) -> Summary:
+    """shard=(k, n): explore only the k-th of n slices of the root's children (child j belongs to slice j % n);
+    the root execution itself is accounted to slice 0 only, so the merged summaries equal an unsharded run."""
     run: Callable = _JOB["run"]
     check: Callable = _JOB["check"]
     outcome: Callable = _JOB["outcome"]
@@ -112,6 +114,16 @@ def _dfs(root: tuple, D: int, audit_every: int, seed: int) -> Summary:
     while stack:
         prefix, expect, used = stack.pop()
         ch, obs = run(prefix, expect)
+        is_root = shard is not None and not prefix and used == 0 and prefix == root[0]
+        if is_root and shard[0] != 0:
+            j = 0
+            for i in range(len(prefix), len(ch.choices)):
+                for alt in range(1, len(ch.menus[i])):
+                    if used + ch.menus[i][alt][1] <= D:
+                        if j % shard[1] == shard[0]:
+                            stack.append((ch.choices[:i] + [alt], ch.menus[: i + 1], used + ch.menus[i][alt][1]))
+                        j += 1
+            continue
         s.executions += 1
         s.nodes += len(ch.choices) - len(prefix) + (1 if not prefix else 0)
         s.points += len(ch.choices)
@@ -145,12 +157,15 @@ def _dfs(root: tuple, D: int, audit_every: int, seed: int) -> Summary:
                     "cost": ch.cost(),
                 }
             )
+        j = 0
         for i in range(len(prefix), len(ch.choices)):
             menu = ch.menus[i]
             for alt in range(1, len(menu)):
                 c = menu[alt][1]
                 if used + c <= D:
-                    stack.append((ch.choices[:i] + [alt], ch.menus[: i + 1], used + c))
+                    if not is_root or j % shard[1] == shard[0]:
+                        stack.append((ch.choices[:i] + [alt], ch.menus[: i + 1], used + c))
+                    j += 1
     return s
 
 
